@@ -22,6 +22,11 @@ def race_part(ck, tier, stats):
         [[{"t": "knn", "v": 1, "k": 2}], [{"t": "insert", "id": 9, "v": 1, "m": {"k1": 1, "k2": 0}}]],
         [[{"t": "knn", "v": 3, "k": 2}], [{"t": "delete", "id": 3}]],
         [[{"t": "knn", "v": 4, "k": 3}], [{"t": "insert", "id": 4, "v": 2, "m": {"k1": 1, "k2": 0}}]],
+        # writes that invalidate by CLEARING the cache (bulk load, metadata update), twice in a row: the second clear meets
+        # an empty cache and must still fence a search that is in flight (the generation check), or the search stores a
+        # result computed before the write; the last write puts a document at the query point
+        [[{"t": "knn", "v": 5, "k": 2}], [{"t": "bulkload", "id": 11, "v": 6, "m": {"k1": 1, "k2": 0}}, {"t": "bulkload", "id": 10, "v": 5, "m": {"k1": 1, "k2": 0}}]],
+        [[{"t": "knn", "v": 5, "k": 2}], [{"t": "umeta", "id": 1, "m": {"k1": 2, "k2": 1}, "merge": True}, {"t": "bulkload", "id": 10, "v": 5, "m": {"k1": 1, "k2": 0}}]],
     ]
     for ci, progs in enumerate(combos):
         lockprogs, nlocks = sched.record_progs("base", progs)
@@ -47,12 +52,16 @@ def race_part(ck, tier, stats):
             winv = [e for e in h if e["ev"] == "inv" and e["t"] == 1 and e["i"] == 2][0]
             if winv["seq"] < wres[0]["seq"]:
                 continue  # second search overlapped the write: nothing demanded
-            w = progs[1][0]
+            w = progs[1][-1]
+            if len(wres) < len(progs[1]):
+                continue
+            if winv["seq"] < wres[-1]["seq"]:
+                continue  # the repeated search overlapped the last write
             ids = last["r"].get("ids", [])
             bad = None
             if w["t"] == "delete" and w["id"] in ids:
                 bad = "deleted document %d served after its delete completed" % w["id"]
-            if w["t"] == "insert" and w["v"] == progs[0][0]["v"] and w["id"] not in ids:
+            if w["t"] in ("insert", "bulkload") and w["v"] == progs[0][0]["v"] and w["id"] not in ids:
                 bad = "document %d written at the query point (distance 0) missing from the repeated search" % w["id"]
             if bad:
                 stats["race_rejected"] += 1
